@@ -61,6 +61,27 @@ func c02Program(specs []fnSpec) *Prog {
 			Return{Vals: []Expr{Binary{Op: "+", L: Var{"total"}, R: Var{"count"}}}}}},
 		Print{Args: []Expr{StrLit{V: "composite"}, Call{Fn: "item", Args: []Expr{lit(5)}}, Var{"item_count"}, Var{"item_total"}, Call{Fn: "get", Args: []Expr{lit(1)}}, Var{"item_count"}, Var{"item_total"}}},
 	)
+	{ // variables of top-level BLOCKS (not globals) spelled like locals of the functions - x, and total (a local of
+		// the function defined last) - alive while every function is called; x becomes a global only afterwards
+		calls := func(base int) []Stmt {
+			var out []Stmt
+			for i, s := range specs {
+				out = append(out, ExprStmt{X: Call{Fn: fmt.Sprintf("f%d", i+1), Args: c02Args(effParams(i, s), []string{"g"}, base+100*(i+1))}})
+			}
+			return append(out, Print{Args: []Expr{StrLit{V: "blk:item"}, Call{Fn: "item", Args: []Expr{lit(4)}}, Call{Fn: "get", Args: []Expr{lit(2)}}}})
+		}
+		st = append(st,
+			If{Cond: Binary{Op: ">", L: Var{"g"}, R: lit(-99999)}, Then: append(append([]Stmt{
+				Define{Names: []string{"x"}, Form: DefShort, Vals: []Expr{lit(40)}},
+				Define{Names: []string{"total"}, Form: DefShort, Vals: []Expr{lit(41)}}},
+				calls(5000)...), Print{Args: []Expr{StrLit{V: "blk:if"}, Var{"x"}, Var{"total"}, Var{"g"}}})},
+			For{Init: Define{Names: []string{"bk"}, Form: DefShort, Vals: []Expr{lit(0)}}, Cond: Binary{Op: "<", L: Var{"bk"}, R: lit(2)}, Post: IncDec{Name: "bk", Inc: true},
+				Body: append(append([]Stmt{
+					Define{Names: []string{"x"}, Form: DefShort, Vals: []Expr{Binary{Op: "+", L: Var{"bk"}, R: lit(60)}}},
+					Define{Names: []string{"total"}, Form: DefShort, Vals: []Expr{Binary{Op: "+", L: Var{"bk"}, R: lit(70)}}}},
+					calls(6000)...), Print{Args: []Expr{StrLit{V: "blk:for"}, Var{"bk"}, Var{"x"}, Var{"total"}, Var{"g"}}})},
+		)
+	}
 	st = append(st, Define{Names: []string{"x"}, Form: DefShort, Vals: []Expr{lit(7)}})
 	show := func(tag string, extra ...Expr) Stmt {
 		args := []Expr{StrLit{V: tag}, Var{"g"}, Var{"y"}, Var{"x"}}
